@@ -476,7 +476,7 @@ def many_tiles(r):
     """datagrams of 65536 and more tiles (a 16-bit tile counter would wrap)"""
     out = []
     bye = bytes([0x80, 203, 0, 0])
-    for n in (65535, 65536, 65537):
+    for n in (65537,):
         out.append(P("compound", bye * n))
     bad = bytes([0x40, 203, 0, 0])       # version 1
     out.append(P("compound", bye * 69000 + bad + bye * 1000))
